@@ -274,6 +274,8 @@ def mat(v):
         return str(v[1])
     if t == "n":
         return None
+    if t == "nan":
+        return NAN  # ONE object per process: identity is what makes a NaN "the same" value
     if t == "F":
         return Fraction(v[1], v[2])
     if t == "c":
@@ -289,8 +291,13 @@ def mats(vs):
     return [mat(v) for v in vs]
 
 
+NAN = float("nan")
+
+
 def sig(o):
     """Hashable signature of a live object (see module docstring)."""
+    if o is NAN:
+        return ("nan",)
     if isinstance(o, Acc):
         return ("A", o.key, _uid(o.uid), tuple(o.log))
     if isinstance(o, Item):
